@@ -24,11 +24,11 @@ CORR_ONLY = ["floating-point evaluation noise: when the function value at the re
              "NaN returned inside the bracket is not modelled (undef)"]
 ASSUMPTIONS = ["the user function is a pure function, continuous on the bracket",
                "sqrt is modelled by a parameter sq with y <= sq(y)^2 (theorems) / a 256-bit rounded-up root (driver): proved to be an instance (sqrtRat_sqOK, sqrtRat_sq_exact)",
-               "theorems are about exact real arithmetic (rnd = id); the driver rounds the new iterate to 2^-200"]
+               "theorems are about exact real arithmetic (rnd = id); the driver rounds the new iterate to 200 significant bits"]
 TRUSTED = ["mpmath evaluation of atan/erf/tanh/pow/exp/log/cos as the sign reference for the transcendental families"]
 
 MARGIN = Fraction(1, 2 ** 26)
-KNOISE = 64
+KNOISE = 4               # audit: needed allowance 0.49 u
 U = Fraction(1, 2 ** 53)
 
 
@@ -247,7 +247,7 @@ def generate(tier, seed, ctx):
     # 1. polynomials from roots ----------------------------------------------------------------------
     for _ in range(260 * N):
         c = rng.random()
-        scale = 10.0 ** rng.randint(-3, 3)
+        scale = 10.0 ** rng.choice([rng.randint(-3, 3), rng.randint(-40, 40)])
         if c < 0.35:      # one simple root in the bracket, others outside
             r0 = rng.uniform(-1, 1) * scale
             others = [r0 + rng.choice([-1, 1]) * scale * rng.uniform(1.5, 6) for _ in range(rng.randint(0, 4))]
@@ -265,10 +265,10 @@ def generate(tier, seed, ctx):
             rs = sorted(rng.uniform(-1, 1) * scale for _ in range(3))
             d = dict(kind="poly", p=poly_from_roots(rs, rng.choice([-1.0, 1.0])))
             a, b = rs[0] - scale * rng.uniform(0.05, 1), rs[2] + scale * rng.uniform(0.05, 1)
-            r0 = rs[1]; sub = "three"
+            r0 = max(rs, key=abs); sub = "three"   # the accuracy is relative to the largest root the run may converge to
         else:             # random coefficients, bracket found by search
             d = dict(kind="poly", p=[rng.uniform(-2, 2) for _ in range(rng.randint(2, 8))])
-            a = rng.uniform(-3, 3); b = a + rng.uniform(0.1, 4); r0 = (a + b) / 2; sub = "random"
+            a = rng.uniform(-3, 3); b = a + rng.uniform(0.1, 4); r0 = max(abs(a), abs(b)); sub = "random"
         if not sign_change(d, a, b):
             continue
         add(d, a, b, acc_for(r0 if r0 else scale, b - a), "poly/" + sub)
@@ -315,6 +315,41 @@ def generate(tier, seed, ctx):
         acc = rng.choice([1e-14 * r0, r0 * 10.0 ** rng.uniform(-14, 0), (b - a) / 2.0 ** rng.uniform(40, 50), (b - a) / 2.0 ** rng.uniform(50, 70)])
         if sign_change(d, a, b):
             add(d, a, b, acc, "wide/%s" % ("beyond-2^50" if (b - a) / acc > 2.0 ** 50 else "within-2^50"), oracle_only=True)
+    # 4e. brackets spanning 60-300 and more decades (the whole range of doubles), roots from 1e-150 to 1e+150 ---------
+    for _ in range(40 * N):
+        p = rng.choice([1, 1, 2, 2, 3, 5])
+        lim = 300.0 / p - 2
+        lr = rng.uniform(-lim * 0.5, lim * 0.5)          # log10 of the root
+        la = rng.uniform(-lim, lr - 0.3)
+        lb = rng.uniform(max(lr + 0.3, min(la + 60, lim - 0.1)), lim)
+        r0 = 10.0 ** lr; a = 10.0 ** la; b = 10.0 ** lb
+        c = float(Fraction(r0) ** p)
+        if c == 0.0 or math.isinf(c) or p * lb > 305:
+            continue
+        d = dict(kind="powc", ip=p, c=c) if p > 1 else dict(kind="poly", p=[-r0, 1.0])
+        acc = rng.choice([1e-14 * r0, r0 * 10.0 ** rng.uniform(-14, 0), (b - a) * 10.0 ** -rng.uniform(0, 20)])
+        if sign_change(d, a, b):
+            add(d, a, b, acc, "wide/decades-%d" % (int((lb - la) // 60) * 60), oracle_only=True)
+    # 4f. bracket ends near +-DBL_MAX: |a| + |b| exceeds the largest double (the midpoint sum overflows) -----------
+    DBL = 1.7976931348623157e308
+    for _ in range(24 * N):
+        sg = rng.choice([-1.0, 1.0])
+        a = sg * DBL * rng.uniform(0.5, 0.95); b = sg * DBL * rng.uniform(0.96, 1.0)
+        if rng.random() < 0.3:
+            a = sg * DBL * 10.0 ** -rng.uniform(0.5, 30)      # many decades, one end at the top of the range
+        lo_, hi_ = min(a, b), max(a, b)
+        r0 = lo_ + (hi_ - lo_) * rng.choice([0.5, 0.25, rng.uniform(0.01, 0.99)])
+        m = rng.choice([1.0, -1.0, 0.5, 2.0 ** -20])
+        d = dict(kind="poly", p=[-m * r0, m])
+        acc = (hi_ - lo_) * 10.0 ** -rng.uniform(1, 14)
+        if sign_change(d, a, b):
+            add(d, a, b, acc, "dblmax")
+    # 4g. -0.0 as a bracket end (an ordinary end, and an end that is a zero of the function) -------------------------
+    for _ in range(16 * N):
+        other = rng.choice([-1.0, 1.0]) * rng.choice([0.5, 2.0, 10.0 ** rng.randint(-8, 8)])
+        r0 = other * rng.uniform(0.1, 0.9)
+        add(dict(kind="poly", p=[-r0, 1.0]), -0.0, other, abs(other) * 10.0 ** -rng.uniform(1, 12), "negzero/ordinary")
+        add(dict(kind="poly", p=poly_from_roots([0.0, other * 2])), -0.0, other, abs(other) * 1e-6, "negzero/zero-end")
     # 4c. fixed request: x^2-1 on [0.1, 1e14], acc 1e-14 (missed with the former limit of 50 iterations) -----------
     add(dict(kind="powc", ip=2, c=1.0), 0.1, 1e14, 1e-14, "wide/fixed", oracle_only=True)
     # 4d. steep zero crossing next to a bracket end followed by a slow decay (non-monotone): Ridder's point can fail
@@ -384,7 +419,7 @@ def generate(tier, seed, ctx):
             a = r0 * 10.0 ** -rng.uniform(0.05, 4); b = r0 * 10.0 ** rng.uniform(0.05, 4)
         else:
             w = rng.uniform(0.5, 4); s = rng.uniform(-1, 1); c = rng.uniform(-0.9, 0.9)
-            a = s + rng.uniform(-6, 6) / w; b = a + rng.uniform(0.5, 9) / w; r0 = (a + b) / 2
+            a = s + rng.uniform(-6, 6) / w; b = a + rng.uniform(0.5, 9) / w; r0 = max(abs(a), abs(b))
         d = dict(kind=k, w=w, s=s, c=c)
         try:
             ok = sign_change(d, a, b)
@@ -464,7 +499,7 @@ def generate(tier, seed, ctx):
         elif c0 < 0.5:    # three roots inside
             rs = sorted(rng.uniform(-1, 1) for _ in range(3))
             inner = dict(kind="poly", p=poly_from_roots(rs, rng.choice([-1.0, 1.0])))
-            a, b = rs[0] - rng.uniform(0.05, 1), rs[2] + rng.uniform(0.05, 1); r0 = rs[1]; fam = "poly3"
+            a, b = rs[0] - rng.uniform(0.05, 1), rs[2] + rng.uniform(0.05, 1); r0 = max(rs, key=abs); fam = "poly3"
         elif c0 < 0.7:    # power law over a few decades
             p = rng.choice([2, 3, 5, 7]); r0 = 10.0 ** rng.uniform(-1, 1)
             inner = dict(kind="powc", ip=p, c=float(Fraction(r0) ** p))
@@ -478,6 +513,22 @@ def generate(tier, seed, ctx):
             inner = dict(kind="rat", p=poly_from_roots([r0]), q=[r0 * r0 + g, -2 * r0, 1.0])
             a, b = r0 - rng.uniform(0.1, 3), r0 + rng.uniform(0.1, 3); fam = "rat"
         scaled(inner, a, b, r0, fam)
+    # 6e. abscissa scale: brackets living at |x| from 1e-300 to 1e+300, much wider than the magnitude of the end next to
+    #     the root (Ridders' point then lands on / past that end by rounding: the clamp into the bracket is at stake) ----
+    for _ in range(40 * N):
+        sx = 10.0 ** rng.randint(-300, 280) * rng.uniform(1, 9)
+        a = sx; b = sx * 10.0 ** rng.uniform(6, 14)
+        if math.isinf(b):
+            continue
+        r0 = a * (1 + 10.0 ** -rng.uniform(4, 10))
+        m = rng.choice([-1.0, 1.0, 2.5])
+        inner = dict(kind="poly", p=[-m * r0, m])
+        if rng.random() < 0.5:      # mirrored to negative abscissae
+            a, b, r0 = -a, -b, -r0
+            inner = dict(kind="poly", p=[m * -r0, m])
+        d = inner if rng.random() < 0.5 else dict(kind="scale", c=10.0 ** rng.randint(-20, 20), inner=inner)
+        if sign_change(d, a, b):
+            add(d, a, b, acc_for(r0, b - a), "xscale/%s" % ("tiny" if sx < 1e-150 else "huge" if sx > 1e150 else "mid"))
     # 7a. deterministic: an end that is a zero exactly in double (dyadic roots, exact expanded coefficients) ------
     for a in (-2.0, 0.0, 0.5, 1.25):
         for w in (0.5, 1.0, 4.0):
@@ -541,7 +592,8 @@ def generate(tier, seed, ctx):
 def parse_impl(impl):
     t = toks(impl)
     n = int(t[2])
-    return dict(r=fl(t[0]), maxit=int(t[1]), xs=[fl(x) for x in t[3:3 + n]])
+    fs = [fl(x) for x in t[4 + n:4 + 2 * n]] if len(t) >= 4 + 2 * n else None
+    return dict(r=fl(t[0]), maxit=int(t[1]), xs=[fl(x) for x in t[3:3 + n]], fs=fs)
 
 
 def to_x(d, v):
@@ -580,16 +632,28 @@ def oracle(q, I, ctx):
     if lin is not None and len(lin["p"]) == 2 and lin["p"][1] != 0 and max(abs(flo[0]), abs(fhi[0])) >= Fraction(1, 2 ** 960):
         root = -Fraction(lin["p"][0]) / Fraction(lin["p"][1])
         bump(ctx, "linear exactness clause evaluated")
-        if abs(Fraction(r) - root) > 64 * U * max(abs(Fraction(lo)), abs(Fraction(hi))):
+        if abs(Fraction(r) - root) > 8 * U * max(abs(Fraction(lo)), abs(Fraction(hi))):   # audit: worst observed 3.78 u
             out.append(fail("prop", "linear function not solved exactly (to rounding)",
                             "r=%r root=%r |r-root|=%.3e after %d evaluations" % (r, float(root), float(abs(Fraction(r) - root)), len(I["xs"]))))
     W = Fraction(hi) - Fraction(lo)
     delta = Fraction(acc)
-    # width/acc <= 2^200 (the whole quantifier): ridder_invariant + findRoot_maxiter_bound exclude the
-    # iteration-limit exit with a bracket wider than acc, the ordinary accuracy clause applies.
+    # The iteration limit (2200) covers every width/accuracy ratio of doubles (findRoot_maxiter_bound): there is no
+    # allowance for the iteration-limit exit.
     if I["maxit"]:
         bump(ctx, "maxiter exits")
-        delta = max(delta, W / 2 ** 199)
+    # zero-slack witness on the function AS THE LIBRARY SAW IT (findRoot_accuracy): the returned point was evaluated, and
+    # either its value is zero or an evaluated abscissa strictly within acc of it carries the opposite sign
+    if I.get("fs"):
+        xs_, fs_ = I["xs"], I["fs"]
+        idx = [i for i, x in enumerate(xs_) if x == r]
+        fr_ = fs_[idx[-1]] if idx else None
+        ok_w = fr_ is not None and (fr_ == 0.0 or any(
+            abs(Fraction(x) - Fraction(r)) < delta and not math.isnan(v) and sgn(v) * sgn(fr_) < 0 for x, v in zip(xs_, fs_)))
+        bump(ctx, "witness clause evaluated")
+        if not ok_w:
+            out.append(fail("prop", "the returned point is not an end of an evaluated bracket shorter than the accuracy with a sign change (or a zero)",
+                            "r=%r f(r)=%r acc=%r maxit=%d evaluations=%d" % (r, fr_, acc, I["maxit"], len(xs_))))
+            return out
     u = max(Fraction(lo), Fraction(r) - delta)
     v = min(Fraction(hi), Fraction(r) + delta)
     pts = [feval(d, u), feval(d, Fraction(r)), feval(d, v)]
@@ -657,7 +721,13 @@ def compare(rq, impl, model, ctx):
         mw = [(fr(t[4 + n + 2 * i]), fr(t[5 + n + 2 * i])) for i in range(k)]
         iters = k
         kind = mkind
-        xs = I["xs"]
+        xs = list(I["xs"])
+        # an immediately repeated evaluation of the same abscissa at the end of a run (Ridders' point coinciding with an
+        # exact-zero midpoint) counts as one: the property says nothing about re-evaluating a point
+        if len(xs) == n + 1 and n >= 2 and xs[-1] == xs[-2]:
+            xs.pop(); bump(ctx, "trace: trailing repeated abscissa collapsed (impl)")
+        elif n == len(xs) + 1 and len(xs) >= 2 and mxs[-1] == mxs[-2]:
+            mxs.pop(); n -= 1; bump(ctx, "trace: trailing repeated abscissa collapsed (model)")
         lo, hi = Fraction(min(q["xl"], q["xr"])), Fraction(max(q["xl"], q["xr"]))
 
         def it(i):
@@ -704,7 +774,7 @@ def compare(rq, impl, model, ctx):
                 out.append(fail("corr", "returned value differs from the model on the same trace", "impl %r model %r" % (I["r"], float(mr))))
     if tag(model) in ("ok", "err") or tag(impl) in ("ok", "err"):
         w = abs(q["xr"] - q["xl"])
-        ctx["nontrivial"].add((meta["fam"], kind, iters, int(math.log10(q["acc"] / w)) if w and q["acc"] > 0 else 0, meta["order"], excused))
+        ctx["nontrivial"].add((meta["fam"], kind, iters, int((math.log10(q["acc"]) - math.log10(w)) // 10) * 10 if w and q["acc"] > 0 and not math.isinf(w) else 0, meta["order"], excused))
     return out
 
 
